@@ -212,4 +212,14 @@ func OrderedDaemon.Run
   ghost after call OrderedDaemon.waitGroupsForAllShutdownOrders: o = off(result)
   loop 1 invariant forall j Int :: 0 <= j && j <= rangeindex ==> sel(snap, o + j) == nil || sel(sync.wgwaited, sel(snap, o + j))
   ghost at return: assert forall j Int :: 0 <= j && j < n ==> sel(snap, o + j) == nil || sel(sync.wgwaited, sel(snap, o + j))
+-- the getter is read-only: it builds its answer in memory of its own (the list of names it reverses is its own copy, not
+-- the daemon's shutdown order - which a reversal in place would turn around for the next shutdown)
+func OrderedDaemon.GetRunningBackgroundWorkers
+  opt sequential
+  requires d != nil && unlocked(d.lock) && d.workers != nil && moninv(d)
+  modifies allelems(string)          -- (string slices: its own; that the daemon's list keeps its contents is the postcondition)
+  loop 1 invariant rheld(d.lock) && fresh(result) && d.shutdownOrderWorker == old(d.shutdownOrderWorker) && (forall k Int :: 0 <= k && k < len(d.shutdownOrderWorker) ==> d.shutdownOrderWorker[k] == old(d.shutdownOrderWorker[k]))
+  loop 2 invariant rheld(d.lock) && fresh(result) && 0 <= i && j < len(result) && i + j == len(result) - 1 && d.shutdownOrderWorker == old(d.shutdownOrderWorker) && (forall k Int :: 0 <= k && k < len(d.shutdownOrderWorker) ==> d.shutdownOrderWorker[k] == old(d.shutdownOrderWorker[k]))
+  ensures unlocked(d.lock)
+  ensures len(d.shutdownOrderWorker) == old(len(d.shutdownOrderWorker)) && forall k Int :: 0 <= k && k < len(d.shutdownOrderWorker) ==> d.shutdownOrderWorker[k] == old(d.shutdownOrderWorker[k])
 @*/
